@@ -2448,9 +2448,19 @@ package goatlang
 //@   ensures#others forall k2 int, x Value :: trig(k2, x) && k2 != k ==> (holds(s.Fields, k2, x) <==> old(holds(s.Fields, k2, x)))
 //@   ensures#keys forall k2 int :: trig(k2) ==> (has(s.Fields, k2) <==> old(has(s.Fields, k2)))
 //@ func (*structT).SetAttr
-//@   inline
+//@   property C12
+//@   requires wfS(s) && valid(v)
+//@   modifies elems(s.Fields.pairs)
+//@   nopanic
+//@   ensures#wf wfS(s) && *s == old(*s)
+//@   ensures#stored forall x Value :: trig(s.Lookup[k], x) && old(holds(s.Fields, s.Lookup[k], x)) ==> holds(s.Fields, s.Lookup[k], v.assign(x.t))
+//@   ensures#others forall k2 int, x Value :: trig(k2, x) && k2 != s.Lookup[k] ==> (holds(s.Fields, k2, x) <==> old(holds(s.Fields, k2, x)))
+//@   ensures#keys forall k2 int :: trig(k2) ==> (has(s.Fields, k2) <==> old(has(s.Fields, k2)))
 //@ func (*structT).GetAttr
-//@   inline
+//@   property C12
+//@   requires wfS(s) && methodsOK(*s.Methods)
+//@   allocates funcT
+//@   ensures#field has(s.Fields, s.Lookup[k]) ==> holds(s.Fields, s.Lookup[k], result)
 //@ func (*structT).GetIndex
 //@   property C12 C09
 //@   requires wfS(s) && methodsOK(*s.Methods)
@@ -2529,3 +2539,36 @@ package goatlang
 //@   invariant#sep arr(as(v.value, *structT).Fields.pairs) != arr(cur.Fields.pairs) && arr(as(v.value, *structT).Order) != arr(cur.Order) && !isfresh(arr(cur.Fields.pairs)) && !isfresh(arr(cur.Order))
 //@   invariant#own (arr(as(v.value, *structT).Order) == old(arr(as(v.value, *structT).Order)) || isfresh(arr(as(v.value, *structT).Order))) && (arr(as(v.value, *structT).Fields.pairs) == old(arr(as(v.value, *structT).Fields.pairs)) || isfresh(arr(as(v.value, *structT).Fields.pairs)))
 //@   invariant#kept forall k2 int :: trig(k2) && old(has(as(v.value, *structT).Fields, k2)) ==> has(as(v.value, *structT).Fields, k2)
+//@
+//@ func NewStruct
+//@   property C12 C19
+//@   requires is(base.value, *structT) && wfS(as(base.value, *structT)) && len(data) % 2 == 0 && (forall j int :: 0 <= j && j < len(data) ==> valid(data[j]))
+//@   allocates structT elems(intMapPair)
+//@   ensures#fresh is(result.value, *structT) && isfresh(as(result.value, *structT)) && isfresh(arr(as(result.value, *structT).Fields.pairs)) && wfS(as(result.value, *structT))
+//@   ensures#shared as(result.value, *structT).Lookup == as(base.value, *structT).Lookup && as(result.value, *structT).Order == as(base.value, *structT).Order && as(result.value, *structT).Methods == as(base.value, *structT).Methods
+//@   ensures#type result.t == TypeStruct | Type(as(base.value, *structT).TypeN<<8)
+//@   ensures#keys forall k int :: trig(k) ==> (has(as(result.value, *structT).Fields, k) <==> has(as(base.value, *structT).Fields, k))
+//@ func NewStruct loop 0
+//@   invariant#idx 0 <= n && n <= len(data) && n % 2 == 0
+//@   invariant#st wfS(st)
+//@   invariant#stfresh isfresh(st) && isfresh(arr(st.Fields.pairs)) && st == as(s.value, *structT) && is(s.value, *structT)
+//@   invariant#shared st.Lookup == b.Lookup && st.Order == b.Order && st.Methods == b.Methods && s.t == TypeStruct | Type(b.TypeN<<8) && b == as(base.value, *structT)
+//@   invariant#keys forall k int :: trig(k) ==> (has(st.Fields, k) <==> has(b.Fields, k))
+//@
+//@ -- the POW2 facts, checked on 64-bit vectors with isPow2(n) read as n >= 1 && n&(n-1) == 0 and
+//@ -- isMask(m) as m >= 0 && m&(m+1) == 0 (the axioms above are these statements over mathematical
+//@ -- ints; the correspondence is the "machine ints treated as mathematical" assumption)
+//@ lemma pow2mask(x int, n int)
+//@   property C12
+//@   intmode bv
+//@   requires n >= 1 && (n & (n - 1)) == 0
+//@   ensures#range 0 <= (x & (n - 1)) && (x & (n - 1)) <= n - 1
+//@   ensures#ident 0 <= x && x <= n - 1 ==> (x & (n - 1)) == x
+//@   ensures#wrap (n & (n - 1)) == 0
+//@   ensures#ismask n - 1 >= 0 && ((n - 1) & n) == 0
+//@ lemma pow2double(n int)
+//@   property C12
+//@   intmode bv
+//@   requires n >= 1 && (n & (n - 1)) == 0 && n <= 1152921504606846976
+//@   ensures#dbl (n << 1) >= 1 && ((n << 1) & ((n << 1) - 1)) == 0
+//@   ensures#half n >= 2 ==> (n >> 1) >= 1 && ((n >> 1) & ((n >> 1) - 1)) == 0 && ((n >> 1) << 1) == n
